@@ -8,6 +8,7 @@ dot-free hash) and `Crypto W` (encode/decode round trips, sign/verify law) are e
 -/
 import AnySyncModel.Space.Lemmas
 import AnySyncModel.Space.TermModel
+import AnySyncModel.Space.OneToOne
 
 namespace AnySync.Space
 open AnySync.Generated.Space
@@ -460,5 +461,176 @@ example : rejectsWith Term.world (splice (buildV0 Term.crypto exIn) (buildV1 Ter
 -- the v0 limitation, evaluated: forged roots naming the space id are accepted under a v0 header
 example : accepts Term.world (forgeRootsV0 Term.crypto exIn 3 4) = true ∧
     forgeRootsV0 Term.crypto exIn 3 4 ≠ buildV0 Term.crypto exIn := by decide
+
+/-! ## the one-to-one root as the ACL state reads it (`setOneToOneAcl`, onetoone.go)
+
+"no other key pair derives them", at the point where an account turns a root into keys: whatever the
+payload validator let through, building the ACL state yields keys only to an account that is one of
+exactly two listed writers AND whose own derivation with the other listed writer reproduces the owner
+key of the root. -/
+
+/-- **o2o_state_shape.** Whoever builds the state: acceptance needs exactly two writers and an owner. -/
+theorem o2o_state_shape (P : O2OPrims) (me : Nat) (i : O2OInfo) (s : O2OState)
+    (h : setOneToOne P me i = .ok s) : i.writers.length = 2 ∧ i.owner.isSome = true := by
+  obtain ⟨w0, w1, o, hw, ho, _⟩ := setOneToOne_ok h
+  simp [hw, ho]
+
+/-- **o2o_state_found_me_agrees**: `findMeAndValidateOneToOne` rejects exactly the malformed lists
+`setOneToOneAcl` rejects first, and the state records whether I am listed. -/
+theorem o2o_state_found_me_agrees (P : O2OPrims) (me : Nat) (i : O2OInfo) (s : O2OState)
+    (h : setOneToOne P me i = .ok s) : findMe P me i = .ok s.foundMe := by
+  obtain ⟨w0, w1, o, hw, ho, h2⟩ := setOneToOne_ok h
+  obtain ⟨_, _, _, _, _, _, _, hf, _⟩ := setTwo_ok h2
+  simp [findMe, hw, ho, hf]
+
+/-- **o2o_keys_only_for_listed_genuine_party.** If building the state leaves keys `k` in it, then I am
+one of the two listed writers, the OTHER listed entry decodes to a key `bob`, my own
+`GenerateSharedKey(me, bob)` succeeded with result `k`, and the root's owner is exactly the public key
+of `k`. Nothing in the root is trusted for the keys: they are re-derived. -/
+theorem o2o_keys_only_for_listed_genuine_party (P : O2OPrims) (me : Nat) (i : O2OInfo) (s : O2OState) (k : Nat)
+    (h : setOneToOne P me i = .ok s) (hk : s.keys = some k) :
+    ∃ w0 w1 bob, i.writers = [w0, w1] ∧
+      (w0 = P.marshal (P.pub me) ∨ w1 = P.marshal (P.pub me)) ∧
+      P.decKey (if w0 = P.marshal (P.pub me) then w1 else w0) = some bob ∧
+      P.shared me bob = some k ∧ i.owner = some (P.marshal (P.pub k)) := by
+  obtain ⟨w0, w1, o, hw, ho, h2⟩ := setOneToOne_ok h
+  obtain ⟨_, _, _, _, _, _, _, _, hcase⟩ := setTwo_ok h2
+  rcases hcase with ⟨hl, k', hd, hk'⟩ | ⟨_, hn⟩
+  · rw [hk] at hk'; cases hk'
+    obtain ⟨bob, hb, hs, hoo⟩ := deriveKeys_ok hd
+    refine ⟨w0, w1, bob, hw, ?_, hb, hs, by rw [ho, hoo]⟩
+    simpa [listed] using hl
+  · rw [hk] at hn; cases hn
+
+/-- **o2o_outsider_gets_no_keys.** An account that is not listed (a node, a stranger) may build the
+state — it stores the space — but never obtains keys from it. -/
+theorem o2o_outsider_gets_no_keys (P : O2OPrims) (me : Nat) (i : O2OInfo) (s : O2OState)
+    (h : setOneToOne P me i = .ok s) (hme : P.marshal (P.pub me) ∉ i.writers) : s.keys = none := by
+  cases hk : s.keys with
+  | none => rfl
+  | some k =>
+    obtain ⟨w0, w1, _, hw, hor, _⟩ := o2o_keys_only_for_listed_genuine_party P me i s k h hk
+    rw [hw] at hme
+    rcases hor with h0 | h1
+    · exact absurd (by simp [h0]) hme
+    · exact absurd (by simp [h1]) hme
+
+/-- **o2o_listed_party_gets_keys.** Conversely a listed account never ends with a key-less state:
+either it re-derives the owner key (and holds the keys) or building the state fails. -/
+theorem o2o_listed_party_gets_keys (P : O2OPrims) (me : Nat) (i : O2OInfo) (s : O2OState)
+    (h : setOneToOne P me i = .ok s) (hme : P.marshal (P.pub me) ∈ i.writers) : s.keys.isSome = true := by
+  obtain ⟨w0, w1, o, hw, ho, h2⟩ := setOneToOne_ok h
+  obtain ⟨_, _, _, _, _, _, _, _, hcase⟩ := setTwo_ok h2
+  rcases hcase with ⟨_, k', _, hk'⟩ | ⟨hl, _⟩
+  · simp [hk']
+  · rw [hw] at hme
+    simp only [List.mem_cons, List.not_mem_nil, or_false] at hme
+    rcases hme with e | e <;> simp [listed, ← e] at hl
+
+/-- **o2o_accounts_exact.** The account table of an accepted one-to-one root: the decoded writers are
+writers, the decoded owner key is the owner (unless it is also listed as a writer: the later map write
+wins), and NO other key has any permission. -/
+theorem o2o_accounts_exact (P : O2OPrims) (me : Nat) (i : O2OInfo) (s : O2OState)
+    (h : setOneToOne P me i = .ok s) :
+    ∃ w0 w1 o k0 k1 ko, i.writers = [w0, w1] ∧ i.owner = some o ∧
+      P.decKey w0 = some k0 ∧ P.decKey w1 = some k1 ∧ P.decKey o = some ko ∧
+      ∀ k, lookupAcc s.accounts k =
+        if k = k1 ∨ k = k0 then some .writer else if k = ko then some .owner else none := by
+  obtain ⟨w0, w1, o, hw, ho, h2⟩ := setOneToOne_ok h
+  obtain ⟨ko, k0, k1, hko, hk0, hk1, hacc, _, _⟩ := setTwo_ok h2
+  refine ⟨w0, w1, o, k0, k1, ko, hw, ho, hk0, hk1, hko, ?_⟩
+  intro k
+  rw [hacc]
+  simp only [lookupAcc, List.find?]
+  by_cases h1 : k1 = k
+  · simp [h1]
+  · have h1' : ¬ k = k1 := fun e => h1 e.symm
+    by_cases h0 : k0 = k
+    · simp [h1, h0]
+    · have h0' : ¬ k = k0 := fun e => h0 e.symm
+      by_cases hk : ko = k
+      · simp [h1, h0, h1', h0', hk]
+      · have hk' : ¬ k = ko := fun e => hk e.symm
+        simp [h1, h0, hk, h1', h0', hk']
+
+/-- **o2o_genuine_root_usable_by_both.** The root `makeOneToOneInfo` builds for identities `pub a`,
+`pub b` (owner = public joint key, writers sorted) is accepted by party `a` and by party `b`, and both
+end in the SAME state — same account table, same keys: the joint key of `oneToOne_symmetric`.
+Hypotheses: X25519 commutativity, `decKey (marshal k) = some k`, `marshal` injective. -/
+theorem o2o_genuine_root_usable_by_both (D : DH) (marshal : Nat → Nat) (dec : Nat → Option Nat)
+    (hdh : ∀ a b, D.dh a (D.mont (D.pub b)) = D.dh b (D.mont (D.pub a)))
+    (hrt : ∀ k, dec (marshal k) = some k) (hinj : ∀ x y, marshal x = marshal y → x = y) (a b : Nat) :
+    let P : O2OPrims := ⟨dec, marshal, D.pub, fun x y => some (sharedKey D x y)⟩
+    let j := sharedKey D a (D.pub b)
+    ∃ s, setOneToOne P a (genuineInfo P j (D.pub a) (D.pub b)) = .ok s ∧
+      setOneToOne P b (genuineInfo P j (D.pub a) (D.pub b)) = .ok s ∧ s.keys = some j := by
+  intro P j
+  have hsym : sharedKey D b (D.pub a) = sharedKey D a (D.pub b) :=
+    ((oneToOne_symmetric Term.crypto D hdh a b 0).2).symm
+  by_cases hab : marshal (D.pub a) = marshal (D.pub b)
+  · have hpub : D.pub a = D.pub b := hinj _ _ hab
+    have hsym' : sharedKey D b (D.pub b) = sharedKey D a (D.pub b) := by
+      have h := hsym; rw [hpub] at h; exact h
+    refine ⟨⟨[(D.pub b, .writer), (D.pub b, .writer), (D.pub j, .owner)], some j, true⟩, ?_, ?_, rfl⟩ <;>
+      simp [setOneToOne, setTwo, listed, genuineInfo, sortPair, deriveKeys, hrt, Except.map, hpub, P, j, hsym']
+  · have hba : ¬ marshal (D.pub b) = marshal (D.pub a) := fun e => hab e.symm
+    by_cases hle : marshal (D.pub a) ≤ marshal (D.pub b)
+    · refine ⟨⟨[(D.pub b, .writer), (D.pub a, .writer), (D.pub j, .owner)], some j, true⟩, ?_, ?_, rfl⟩ <;>
+        simp [setOneToOne, setTwo, listed, genuineInfo, sortPair, hle, deriveKeys, hrt, Except.map, hab, hba, P, j, hsym]
+    · refine ⟨⟨[(D.pub a, .writer), (D.pub b, .writer), (D.pub j, .owner)], some j, true⟩, ?_, ?_, rfl⟩ <;>
+        simp [setOneToOne, setTwo, listed, genuineInfo, sortPair, hle, deriveKeys, hrt, Except.map, hab, hba, P, j, hsym]
+
+/-- **o2o_replaced_partner_rejected.** A root that carries the genuine A–B joint key as owner but lists
+A next to an entry that decodes to X ≠ B is rejected by party A: the owner key A re-derives with X
+differs from the A–B key, because the KDF context is built from the identities. Hypotheses: KDF output
+determines its context; `pub` and `marshal` injective. -/
+theorem o2o_replaced_partner_rejected (D : DH) (marshal : Nat → Nat) (dec : Nat → Option Nat)
+    (hkdf : ∀ s c s' c', D.kdf s c = D.kdf s' c' → c = c')
+    (hpub : ∀ x y, D.pub x = D.pub y → x = y) (hinj : ∀ x y, marshal x = marshal y → x = y)
+    (a bId xId w0 w1 : Nat) (hx : xId ≠ bId)
+    (hlisted : w0 = marshal (D.pub a) ∨ w1 = marshal (D.pub a))
+    (hother : dec (if w0 = marshal (D.pub a) then w1 else w0) = some xId) :
+    let P : O2OPrims := ⟨dec, marshal, D.pub, fun x y => some (sharedKey D x y)⟩
+    ∀ s, setOneToOne P a ⟨some (marshal (D.pub (sharedKey D a bId))), [w0, w1]⟩ ≠ .ok s := by
+  intro P s h
+  have hmem : P.marshal (P.pub a) ∈ ([w0, w1] : List Nat) := by
+    rcases hlisted with h0 | h1
+    · simp [P, h0]
+    · simp [P, h1]
+  have hsome := o2o_listed_party_gets_keys P a _ s h hmem
+  cases hk : s.keys with
+  | none => simp [hk] at hsome
+  | some k =>
+    obtain ⟨w0', w1', bob, hw, _, hb, hs, ho⟩ := o2o_keys_only_for_listed_genuine_party P a _ s k h hk
+    simp only [List.cons.injEq, and_true] at hw
+    obtain ⟨rfl, rfl⟩ := hw
+    have hbob : bob = xId := by
+      have hb' : dec (if w0 = marshal (D.pub a) then w1 else w0) = some bob := hb
+      rw [hother] at hb'; exact (Option.some.inj hb').symm
+    subst hbob
+    have hk' : sharedKey D a bob = k := Option.some.inj hs
+    have ho' : marshal (D.pub (sharedKey D a bId)) = marshal (D.pub k) := Option.some.inj ho
+    have hkk : sharedKey D a bId = sharedKey D a bob := by rw [hk']; exact hpub _ _ (hinj _ _ ho')
+    have hsp := sharedKey_determines_identities D hkdf a bId a bob hkk
+    simp only [sortPair] at hsp
+    split at hsp <;> split at hsp <;> simp only [Prod.mk.injEq] at hsp <;> omega
+
+-- non-vacuity, evaluated in the toy instance: the genuine root of (1, 2) is usable by 1 and by 2 with
+-- the same keys, not by 3; with a third writer, a dropped writer or 2 replaced by 3 nobody gets a state
+private def toyP : O2OPrims := ⟨some, id, Term.dhToy.pub, fun x y => some (sharedKey Term.dhToy x y)⟩
+private def toyJ : Nat := sharedKey Term.dhToy 1 (Term.dhToy.pub 2)
+private def toyI : O2OInfo := genuineInfo toyP toyJ (Term.dhToy.pub 1) (Term.dhToy.pub 2)
+private def keysOf (r : Except O2OErr O2OState) : Option (Option Nat) :=
+  match r with | .ok s => some s.keys | .error _ => none
+private def errOf (r : Except O2OErr O2OState) : Option O2OErr :=
+  match r with | .ok _ => none | .error e => some e
+example : keysOf (setOneToOne toyP 1 toyI) = some (some toyJ) ∧
+    keysOf (setOneToOne toyP 2 toyI) = some (some toyJ) ∧
+    keysOf (setOneToOne toyP 3 toyI) = some none := by decide
+example : errOf (setOneToOne toyP 1 ⟨toyI.owner, toyI.writers ++ [Term.dhToy.pub 3]⟩) = some .count ∧
+    errOf (setOneToOne toyP 1 ⟨toyI.owner, [Term.dhToy.pub 1]⟩) = some .count ∧
+    errOf (setOneToOne toyP 1 ⟨none, toyI.writers⟩) = some .ownerEmpty ∧
+    errOf (setOneToOne toyP 1 ⟨toyI.owner, [Term.dhToy.pub 1, Term.dhToy.pub 3]⟩) = some .ownerMismatch ∧
+    errOf (setOneToOne toyP 3 ⟨toyI.owner, [Term.dhToy.pub 1, Term.dhToy.pub 3]⟩) = some .ownerMismatch := by decide
 
 end AnySync.Space
